@@ -60,6 +60,15 @@ func runC05(c *vk.Ctx) {
 				}
 				seen[h.TokenOutDenom] = true
 			}
+			// estimates are promised only for routes that visit each pool at most once
+			revisits := false
+			seenPool := map[uint64]bool{}
+			for _, h := range route {
+				if seenPool[h.PoolId] {
+					revisits = true
+				}
+				seenPool[h.PoolId] = true
+			}
 			wl := ai == w.whitelisted
 			hasTaker := false
 			cur := din
@@ -76,8 +85,8 @@ func runC05(c *vk.Ctx) {
 			amtIn := w.tradeAmount(ps[0], din)
 			c.Eval(1)
 			probe := r.Intn(4)
-			if repeats && probe >= 2 {
-				probe -= 2
+			if (repeats || revisits) && probe >= 2 {
+				probe -= 2 // the limit probes are built on the estimate
 			}
 			switch probe {
 			case 0: // (i)+(iii) exact-in: routed vs hop by hop, estimate vs execution
@@ -123,11 +132,11 @@ func runC05(c *vk.Ctx) {
 					return
 				}
 				// the estimate query knows no sender: for a sender on the reduced-fee whitelist it legitimately differs
-				if !(wl && hasTaker) && (estErr != nil || !est.TokenOutAmount.Equal(rsp.TokenOutAmount)) {
+				if !revisits && !(wl && hasTaker) && (estErr != nil || !est.TokenOutAmount.Equal(rsp.TokenOutAmount)) {
 					c.Violate("C05.estimate_vs_execution", sig("exact-in"), "exact-in %s%s over %v executed with %s, estimate on the same state: %v (%v)", amtIn, din, route, rsp.TokenOutAmount, est, estErr)
 					return
 				}
-				c.Class("exact-in|%s|taker%v|wl%v|ok", kind, hasTaker, wl)
+				c.Class("exact-in|%s|taker%v|wl%v|revisit%v|ok", kind, hasTaker, wl, revisits)
 			case 1: // (i)+(iii) exact-out: routed vs backward estimates + forward exact-out hops
 				last := ps[len(ps)-1]
 				amtOut := sdkmath.MaxInt(sdkmath.OneInt(), w.ch.Bal(last.addr, dout).QuoRaw(20+r.I64n(100000)))
@@ -151,6 +160,12 @@ func runC05(c *vk.Ctx) {
 				if len(route) == 1 && !paid.Equal(rsp.TokenInAmount) {
 					c.Violate("C05.response_vs_balance", sig("exact-out"), "exact-out over %v reports %s charged, the sender's %s balance fell by %s", outRoute, rsp.TokenInAmount, din, paid)
 					return
+				}
+				if revisits {
+					// exact-out over a pool visited twice: neither the estimate nor "the hops one after another" is
+					// well defined by the statement; the conservation side of such swaps is C02's
+					c.Class("exact-out|%s|taker%v|wl%v|revisit-ok", kind, hasTaker, wl)
+					continue
 				}
 				if !(wl && hasTaker) && (estErr != nil || !est.TokenInAmount.Equal(rsp.TokenInAmount)) {
 					c.Violate("C05.estimate_vs_execution", sig("exact-out"), "exact-out %s%s over %v executed with %s in, estimate on the same state: %v (%v)", amtOut, dout, outRoute, rsp.TokenInAmount, est, estErr)
